@@ -30,7 +30,11 @@ ENTRY = dict(
          "delegated credentials, ALPN list, key-share data, cookie, session ticket, GREASE body, PSK identity, padding) sized so "
          "that the extension block is exactly 65535 bytes (must encode) and 65536 (must be an error) and the vector alone at "
          "65535/65536 bytes (error) - quick: groups, ALPN list and a seed-rotated third of the others, thorough: all; the small cases "
-         "also go to the model, the 64 KiB ones through the Go-side oracles only. Every produced "
+         "also go to the model, the 64 KiB ones through the Go-side oracles only; a CARRY sweep: every two-byte-prefixed vector at every "
+         "size n in [W-framing-2, W+1] for W = 256 and 512, so that each of its nested length prefixes (n, n+k1, n+k2, ...) is seen on "
+         "both sides of its own byte carry while its neighbours are not (about 300 builds, all through the Go walker, every sixth of "
+         "the first window through the model), and per predefined fingerprint one Config.ServerName of 246..253 bytes (rotating), the "
+         "window in which the three server_name prefixes cross 256 within the DNS limit. Every produced "
          "Hello.Raw goes to the Coq oracle valid_chb (OracleCase) and to the independent Go walker; every custom spec also to the "
          "model of MarshalClientHelloNoECH (header fields + each extension object as a Coq term), which must reproduce Hello.Raw "
          "byte for byte or return an error when the code does. Distinct by (fingerprint, shape) resp. spec index; non-trivial "
